@@ -5,6 +5,8 @@ from .. import ref, gen, bridge
 from ..mon.hooks import Hooks
 
 PROP = "C01"
+LEVEL_TEXT = 'Every call of encode_bipartitions made by the workload is hooked and the post-call tree is compared edge by edge with reference clades/splits from a DendroPy-free model; the iff between split-set equality and topology equality is evaluated on pools of re-drawings and non-equivalent trees; rebuilt trees and the predicates are compared with set definitions. Exhaustive over all shapes with <= 5 (quick) / 6 (thorough) leaves x rooting x taxon-to-bit configurations as a workload, random beyond. Held on what was observed - not a proof for all shapes.'
+LEVEL_NOTE = 'Trusted: vf/ref.py (clades, splits), TaxonNamespace.taxon_bitmask as the given taxon->bit map (C10 monitors it), CPython.'
 LEVEL = "exploration"
 RULE = ("cases = (shape | random tree | pool of re-drawings and non-equivalents | rebuild | predicates) x "
         "rooting x namespace configuration x encode flags; a case is non-trivial when its tree has >= 1 "
